@@ -1,6 +1,7 @@
 from __future__ import annotations
 
 import copy
+import math
 import os
 from abc import ABC, abstractmethod
 from collections.abc import (
@@ -458,9 +459,13 @@ class Storage:
             raise ArithmeticError(
                 f"Cannot subtract two storages with different mount points: {self.mount_point} and {other.mount_point}"
             )
+        size = self.size - other.size
+        if size < 0 and math.isclose(self.size, other.size, rel_tol=1e-9):
+            # Residue of floating point rounding, e.g., (0.1 + 0.7) - 0.7 - 0.1
+            size = 0.0
         return Storage(
             mount_point=self.mount_point,
-            size=self.size - other.size,
+            size=size,
             paths=self.paths | other.paths,
             bind=self.bind,
         )
